@@ -700,6 +700,214 @@ def c15_options_form_cache_default():
     return _run(sc)
 
 
+# ------------------------------------------------------------------------------------------------- bridges
+def c16_producer_far_ahead_of_the_consumer():
+    """C16: the source runs thousands of elements ahead of a slow consumer: nothing is lost, the end arrives."""
+    import time
+    from aiuti.asyncio import to_sync_iter, to_async_iter
+    N = 5000
+    out = []
+
+    class Src:
+        def __init__(self):
+            self.i = 0
+
+        def __aiter__(self):
+            return self
+
+        async def __anext__(self):
+            if self.i >= N:
+                raise StopAsyncIteration
+            self.i += 1
+            return self.i - 1
+    got = []
+    fin = threading.Event()
+
+    def consume():
+        it = to_sync_iter(Src())
+        got.append(next(it))
+        time.sleep(0.3)                  # the async producer runs on meanwhile
+        for x in it:
+            got.append(x)
+        fin.set()
+    t = threading.Thread(target=consume, daemon=True)
+    t.start()
+    if not fin.wait(15):
+        out.append('C16: to_sync_iter over %d elements with a slow consumer: stuck after %d elements, the end of the '
+                   'stream never arrived' % (N, len(got)))
+    elif got != list(range(N)):
+        out.append('C16: to_sync_iter delivered %d of %d elements' % (len(got), N))
+
+    async def slow():
+        r = []
+        async for x in to_async_iter(iter(range(N))):
+            r.append(x)
+            if len(r) == 1:
+                await aio.sleep(0.3)
+        return r
+    lp = aio.new_event_loop()
+    try:
+        r = lp.run_until_complete(aio.wait_for(slow(), 15))
+        if r != list(range(N)):
+            out.append('C16: to_async_iter delivered %d of %d elements' % (len(r), N))
+    except BaseException as e:  # noqa
+        out.append('C16: to_async_iter over %d elements with a slow consumer ended with %r' % (N, e))
+    finally:
+        lp.close()
+    return out
+
+
+def c17_every_kind_of_awaitable_crosses_loops():
+    """C17: ensure_aw / run_aw_threadsafe hand over exactly the awaitable's result or exception for every kind of
+    awaitable (coroutine, Task, Future, object with __await__), evaluated on the target loop."""
+    from aiuti.asyncio import ensure_aw, run_aw_threadsafe, loop_in_thread
+    target = aio.new_event_loop()
+    stop = loop_in_thread(target)
+    out = []
+
+    class Boom(Exception):
+        pass
+    seen = []
+
+    class Custom:
+        def __init__(self, fail):
+            self.fail = fail
+
+        def __await__(self):
+            seen.append(aio.get_running_loop())
+            yield from aio.sleep(0).__await__()
+            if self.fail:
+                raise Boom('from the custom awaitable')
+            return 'custom-ok'
+
+    async def coro(fail):
+        seen.append(aio.get_running_loop())
+        if fail:
+            raise Boom('from the coroutine')
+        return 'coro-ok'
+
+    def mk(kind, fail):
+        if kind == 'coroutine':
+            return coro(fail)
+        if kind == 'custom':
+            return Custom(fail)
+        if kind == 'task':
+            return aio.run_coroutine_threadsafe(_mk_task(coro(fail)), target).result(5)
+        f = aio.run_coroutine_threadsafe(_mk_future(fail, Boom), target).result(5)
+        return f
+
+    async def _mk_task(c):
+        return aio.ensure_future(c)
+
+    async def _mk_future(fail, exc):
+        f = aio.get_running_loop().create_future()
+        if fail:
+            f.set_exception(exc('from the future'))
+        else:
+            f.set_result('future-ok')
+        return f
+
+    async def main():
+        for via in (ensure_aw, run_aw_threadsafe):
+            for kind in ('coroutine', 'custom', 'task', 'future'):
+                for fail in (False, True):
+                    del seen[:]
+                    aw = mk(kind, fail)
+                    try:
+                        r = await aio.wait_for(via(aw, target), 10)
+                        got = ('ok', r)
+                    except Boom as e:
+                        got = ('boom', str(e))
+                    except BaseException as e:  # noqa
+                        got = ('other', repr(e))
+                    want = 'boom' if fail else 'ok'
+                    if got[0] != want or (kind in ('coroutine', 'custom') and seen and seen[0] is not target):
+                        out.append('C17: %s(<%s%s>, loop running in another thread) -> %r (evaluated on the target '
+                                   'loop: %s)' % (via.__name__, kind, ', failing' if fail else '', got,
+                                                  bool(seen) and seen[0] is target))
+                        return
+    lp = aio.new_event_loop()
+    try:
+        lp.run_until_complete(main())
+    except BaseException as e:  # noqa
+        out.append('C17: scenario ended with %r' % (e,))
+    finally:
+        lp.close()
+        stop()
+        target.close()
+    return out
+
+
+def c20_every_kind_of_awaitable_and_failure():
+    """C20: gather_excs / raise_first_exc over coroutines, spawned Tasks, plain Futures (failed through
+    set_exception with an exception that was never raised) and objects with __await__."""
+    from aiuti.asyncio import gather_excs, raise_first_exc
+
+    class E1(Exception):
+        pass
+
+    class Custom:
+        def __init__(self, exc):
+            self.exc = exc
+
+        def __await__(self):
+            yield from aio.sleep(0).__await__()
+            if self.exc is not None:
+                raise self.exc
+            return 'ok'
+
+    async def sc():
+        loop = aio.get_running_loop()
+        out = []
+
+        async def co(exc):
+            await aio.sleep(0)
+            if exc is not None:
+                raise exc
+            return 'ok'
+
+        def mk(kind, exc):
+            if kind == 'coroutine':
+                return co(exc)
+            if kind == 'task':
+                return aio.ensure_future(co(exc))
+            if kind == 'custom':
+                return Custom(exc)
+            f = loop.create_future()
+            if exc is None:
+                f.set_result('ok')
+            else:
+                f.set_exception(exc)      # never raised: no traceback
+            return f
+        kinds = ('coroutine', 'task', 'future', 'custom')
+        import itertools
+        for combo in itertools.product(kinds, repeat=2):
+            for fails in ((True, True), (False, True), (True, False), (False, False)):
+                excs = [E1('e%d' % i) if fl else None for i, fl in enumerate(fails)]
+                want = [e for e in excs if e is not None]
+                try:
+                    got = [e async for e in gather_excs([mk(k, e) for k, e in zip(combo, excs)])]
+                except BaseException as e:  # noqa
+                    out.append('C20: gather_excs over %r raised %r itself' % (combo, e))
+                    return out
+                if got != want:
+                    out.append('C20: gather_excs over %r with failures %r yielded %r, expected %r' % (combo, fails, got, want))
+                    return out
+                try:
+                    r = await raise_first_exc([mk(k, e) for k, e in zip(combo, excs)])
+                    res = ('returned', r)
+                except E1 as e:
+                    res = ('raised', e)
+                except BaseException as e:  # noqa
+                    res = ('other', e)
+                exp = ('raised', want[0]) if want else ('returned', None)
+                if res[0] != exp[0] or (res[0] == 'raised' and res[1] is not exp[1]) or (res[0] == 'returned' and res[1] is not None):
+                    out.append('C20: raise_first_exc over %r with failures %r -> %r, expected %r' % (combo, fails, res, exp))
+                    return out
+        return out
+    return _run(sc, loop=aio.new_event_loop())
+
+
 SCENARIOS = {
     'C01': [c01_owner_cancelled_mid_invocation, c01_keyword_order, c14_recheck_under_the_lock],
     'C14': [c01_keyword_order, c14_hash_equal_arguments, c14_recheck_under_the_lock, c15_options_form_cache_default],
@@ -714,6 +922,9 @@ SCENARIOS = {
     'C11': [c11_sharer_cancelled_while_pending, c04_owner_cancelled_then_same_key_again_in_the_open_batch,
             c15_options_form_equals_direct_form_batcher],
     'C15': [c15_options_form_equals_direct_form_batcher, c15_options_form_cache_default],
+    'C16': [c16_producer_far_ahead_of_the_consumer],
+    'C17': [c17_every_kind_of_awaitable_crosses_loops],
+    'C20': [c20_every_kind_of_awaitable_and_failure],
     'C08': [c08_wait_from_anywhere_without_flush],
 }
 
